@@ -282,6 +282,9 @@ func mergeResults(a, b *fw.Result) *fw.Result {
 		if c.Maxima == nil {
 			c.Maxima = map[string]int64{}
 		}
+		if c.Minima == nil {
+			c.Minima = map[string]int64{}
+		}
 		if c.Sets == nil {
 			c.Sets = map[string][]string{}
 		}
@@ -316,6 +319,11 @@ func mergeResults(a, b *fw.Result) *fw.Result {
 	for k, v := range b.Maxima {
 		if v > a.Maxima[k] {
 			a.Maxima[k] = v
+		}
+	}
+	for k, v := range b.Minima {
+		if w, ok := a.Minima[k]; !ok || v < w {
+			a.Minima[k] = v
 		}
 	}
 	for k, l := range b.Sets {
@@ -499,6 +507,9 @@ func check(id, tier string) int {
 			cl[k] = v
 		}
 		for k, v := range acc.Maxima {
+			cl[k] = v
+		}
+		for k, v := range acc.Minima {
 			cl[k] = v
 		}
 		for k, v := range acc.Sets {
